@@ -143,9 +143,11 @@ class ModelModifier:
     # TODO: b/338244867 - we can have more efficient way to calculate the
     # buffer offsets.
 
-    # remove all the constant from the model.
-    for buffer in quantized_model.buffers:
-      if buffer.data is not None:
+    # remove all the constant from the model. Zero-length buffers stay in place:
+    # a size of 0 is not serialized, so moving them out would shift the offsets
+    # computed below.
+    for buffer_idx, buffer in enumerate(quantized_model.buffers):
+      if self._constant_map[buffer_idx]:
         buffer.data = None
         buffer.offset = 1
         buffer.size = 1
@@ -157,7 +159,7 @@ class ModelModifier:
       dummy_bytearray += b'\0'
     for buffer_idx, buffer in enumerate(quantized_model.buffers):
       buffer_data = self._constant_map[buffer_idx]
-      if buffer_data is None:
+      if not buffer_data:
         continue
       buffer.offset = len(dummy_bytearray)
       buffer.size = len(buffer_data)
@@ -174,7 +176,7 @@ class ModelModifier:
       model_bytearray += b'\0'
     for buffer_idx, _ in enumerate(quantized_model.buffers):
       buffer_data = self._constant_map[buffer_idx]
-      if buffer_data is None:
+      if not buffer_data:
         continue
       model_bytearray += buffer_data
       while len(model_bytearray) % 16:
